@@ -7,7 +7,7 @@
    to the scan has no duplicates, is exactly the reachable set, and lists every
    commit before its parents (checked on git's real output on every run).
    small: no object size above 2^32-1 etc. (the guard is necessary: C05). *)
-From GS Require Import GoSem Counts Repo RepoProofs Deferred Scan ScanMain ScanFinal DispatchScan.
+From GS Require Import GoSem Counts Repo RepoProofs Deferred Scan ScanMain ScanFinal DispatchScan ScanFaults.
 Open Scope N_scope.
 
 Theorem C01_reachable_is_reach : forall r roots o, wf_b r = true ->
@@ -44,3 +44,13 @@ From GS Require Import SpecFast.
 Theorem C01_oracle_is_spec : forall r roots, spec_census_fast r roots = spec_census r roots.
 Proof. exact spec_census_fast_eq. Qed.
 Print Assumptions C01_oracle_is_spec.
+
+(* the converse direction needs no contract: WHATEVER listing `git rev-list` hands over, a census is only ever reported for a
+   listing that is closed under the edges of the object graph the scan follows (ScanFaults.v) — half of "exactly the reachable
+   set" is enforced by the scan itself, not assumed *)
+Theorem C01_census_of_a_closed_listing : forall r enum roots names evs,
+  scan r enum roots names = SOk evs ->
+  Forall (fun o => lookup r o <> None) enum /\
+  (forall o c, In o enum -> edge_of r o c -> lookup r c <> None -> In c enum).
+Proof. exact census_of_a_closed_listing. Qed.
+Print Assumptions C01_census_of_a_closed_listing.
